@@ -190,7 +190,7 @@ PROPS = {
         "claim": "Kernel-checked: the parser is lossless and equals the split-based reference on every input, no value hides a delimiter, parse∘render is the identity on well-formed trees (so an accepted string's fragments are exactly what the codec matched). "
                  "The tolerated respellings (one trailing delimiter; integer spellings of equal value; order inside a parameter group; explicitly written zero/empty optional field) are a decidable specification written against the derivation of the canonical string, "
                  "and EVERY string accepted by the real Unmarshal in the suites (edit-distance-1 neighbourhoods, splices, all short strings) is checked to be a respelling of the real Marshal of the returned value — a disagreement is a concrete failing input.",
-        "note": "Partial: 'accepted ⇒ respelling' is not yet a theorem for all strings (neither in general nor per shipped shape) — it is decided per accepted string against the specification. Known findings F10 (param+inline) and F13 (omitempty on non-empty arrays) are reported as such.",
+        "note": "Kernel-checked per shipped layout for ALL strings: Accept.accepts_only_respellings_<scheme> (unmarshal ti h = ok out → respell ti (finalVals ti out) h). Partial: for arbitrary struct types 'accepted ⇒ respelling' is decided per accepted string against the specification, not proved in general. Known findings F10 (param+inline) and F13 (omitempty on non-empty arrays) are reported as such.",
         "rule": "codec: see C10; for every (type, value): every string at edit distance 1 from the canonical marshalling under the class-representative alphabet {$ , = _ 0 9 a Z . / + @ NUL 0xFF} (exhaustive for strings ≤ 24 bytes on a quarter of the types, sampled otherwise), "
                 "structural splices (prefix inserted/removed, name=/= removed, fragments swapped/duplicated, group split/merged, junk fragment/group appended), all strings ≤ 4 (quick) / 5 (thorough) over {$ , = a 0 _} for five small types; "
                 "non-trivial/distinct = distinct (type, marshalled string) pairs",
@@ -203,7 +203,7 @@ PROPS = {
         "technique": "Lean 4 proof (three-way classification of Check on the pipeline model; every canonical-domain hash of the ten layouts is accepted with exactly its fields) + exhaustive edit-distance-1 classification correspondence on Go",
         "claim": "Kernel-checked: Check returns nil / mismatch / error exactly according to (Unmarshal result, Key result, digest equality) — errors are never reported as mismatch and never swallowed (C02.check_ok_iff, error-return theorems); for all ten shipped layouts every canonical-domain string is accepted and yields exactly its fields (C10.canonical_*), "
                  "zero-length fields are enforced (regenerated shapes). On Go: every string at edit distance 1 from canonical hashes of every scheme (all substitutions, insertions, deletions, truncations under the class alphabet), field-level splices and all short strings are classified identically by the model, incl. error kind, offset and field; Params compared likewise.",
-        "note": "Partial: the converse direction ('accepted ⇒ in the documented grammar') is carried by the model/implementation correspondence, not yet by an independent per-scheme grammar theorem. Finding 9 candidates (explicit rounds=0 / v=0 read as absent) are classified identically by model and code and surface under C06 only through that reading.",
+        "note": "Both directions are kernel-checked per shipped layout: Accept.unmarshal_eq_grammar_<scheme> — Unmarshal accepts h with fields out IFF an independently written recogniser of the documented layout (Spec/Grammar.lean: strip prefix, split on $, lengths, alphabets, decimal numbers) accepts h and reads exactly those fields. Partial: not for arbitrary struct types. Finding 9 candidates (explicit rounds=0 / v=0 read as absent) are classified identically by model and code and surface under C06 only through that reading.",
         "rule": "classify: per scheme 1–3 canonical hashes (incl. implicit rounds, absent Argon2 version, both Sun-MD5 forms, $2$/$2a$), every edit at every position with 14 class-representative bytes (insert, substitute), every deletion and truncation, pairwise fragment swaps/duplications/drops, junk appendices — "
                 "sampled with a stride to ≤ 1500 (500 for Sun-MD5/bcrypt) ops per hash at quick, 12× that at thorough; × {correct, wrong} password; all strings ≤ 4/6 over {$ , = _ a 0}; "
                 "non-trivial/distinct = canonical hashes mutated",
@@ -253,10 +253,11 @@ PROPS = {
     "C04": {
         "suites": ["argon", "purego:argon"],
         "level": "proof",
-        "technique": "Lean 4: executable code-shaped model that calls the indexAlpha/phi kernels regenerated from the Go source, compared key-for-key with an independent RFC 9106 reference written in Lean and with the real code on all three code paths",
+        "technique": "Lean 4 proof: the code-shaped Argon2 model (which calls the indexAlpha/phi kernels regenerated from the Go source) equals an independent RFC 9106 reference for all inputs (key_eq_rfc and component theorems) + key-for-key and block-for-block correspondence with the real code on all three code paths",
         "claim": "The Argon2 model (H0, H', block function, fill schedule, version rule, memory rounding) mirrors argon2crypto function by function and uses the reference-index kernel translated from the current source; an independent Lean reference written from RFC 9106 §3 (explicit reference set W, G via the permutation P on the 8×8 register matrix) agrees with it and with the Go code on every grid point. "
                  "Three code paths of the real block function — amd64 assembly with SSE4.1, assembly with SSE4.1 switched off (verif hook), and the portable Go path (-tags purego build of the harness) — give identical keys and identical block outputs on random 1 KiB triples incl. aliased out==in.",
-        "note": "Partial: model = RFC reference is established by execution on the grid, not yet by a Lean theorem for all parameters (the index kernel's reference-set theorem is C09's); the SSE2/SSE4.1 assembly is not modelled at all — its equality with the portable path is sampled. BLAKE2b (x/crypto) trusted.",
+        "note": "Kernel-checked for ALL inputs on the documented domain (1 ≤ p ≤ 255, 8p ≤ m < 2^32; every mode, version, time, key length): C04.key_eq_rfc — the code-shaped model's key equals the independent RFC 9106 reference; component theorems: H' (blake2bHash_eq_H'), H0 layout + injectivity, G = P rows then columns (gb_eq_GB, P_eq_eight_GB, blamka_eq_P, processBlock_eq_G / _xor_eq_G), memory rounding (key_memory_rule, roundedMemory_eq_rfc), reference set (refSet_closed_form, indexAlpha_eq_refIndex on the regenerated kernel). "
+                "Partial: the SSE2/SSE4.1 assembly is not modelled — its equality with the portable path is sampled on random and aliased blocks and on whole keys; the Lean BLAKE2b is a hand copy validated differentially against x/crypto (hprime ops).",
         "rule": "argon: 60 (quick) / 1200 (thorough) parameter tuples over 3 variants × versions {0x10,0x13} × lanes 1..8 and 255 × memory 8p..33p incl. non-multiples of 4p × time 1..4 × password 0..200 × salt 8..64 × tag 4..128 — Go (each code path) vs Lean model vs Lean RFC reference; "
                 "H' for 16 output lengths; 300 / 20000 random block triples × {xor, overwrite} × 5 aliasing patterns × code paths; 3000 / 100000 indexAlpha tuples incl. the reference-set property checked directly; purego: the same suite on the portable build; "
                 "non-trivial/distinct = distinct (variant, version, lanes, memory, time)",
@@ -264,14 +265,14 @@ PROPS = {
         "assumptions": [],
     },
     "C09": {
-        "unclaimed": "the schedule-independence theorems (Props/C09.lean) are still being proved in this revision; the race-detector suite argonsched exists but exploration alone is not this task's technique",
         "suites": ["purego-race:argonsched", "argon"],
         "level": "proof",
         "fail_kinds": ["data-race", "schedule-dependent", "goroutine-leak", "reference-set"],
         "technique": "Lean 4 proof (reference-set theorem about the index kernel regenerated from source; schedule independence of tasks with disjoint write regions, for every schedule) + race-detector exploration of the portable build under perturbed scheduling",
         "claim": "Kernel-checked: for tasks that write only their own region and read only it and a frozen area, EVERY schedule leaves each region exactly as the task's solo run (so the result is schedule-independent); the reference-set theorem for the regenerated indexAlpha gives the locality premise (a cross-lane reference never points into the slice being written; a same-lane reference is strictly earlier). "
                  "Go side: lanes 2..8 × 3 variants × 2 versions × memory {8p, 8p+3, 32p} × time 1..3 × GOMAXPROCS {1,2,3,16} with competing goroutines, on the purego build under the race detector; keys equal the sequential Lean model; goroutine count restored.",
-        "note": "Partial: that the Go statements implement the modelled barrier (WaitGroup Add/Done/Wait placement, goroutine start) is trusted runtime behaviour tied by the race detector and the goroutine count; until Props/C09.lean lands the kernel-checked part is limited (see obligations).",
+        "note": "Kernel-checked: the reference-set theorems about the generated indexAlpha (refset_in_memory, refset_cross_lane_completed, refset_same_lane_earlier), the generic phase theorem (schedule_independent, complete_schedules_agree, complete_eq_sequential) and its Argon2 instantiation (argon2_phase_local, argon2_no_read_of_foreign_segment, key_schedule_independent: every complete schedule of all 4·time phases equals the sequential fill). "
+                "Partial: that `go …; wg.Wait()` implements the modelled barrier with one block operation as the atomic step, and that every worker has finished when Key returns, is runtime behaviour: tied by the race detector on the portable build and by the goroutine count, not proved. The abstract sequential fill is linked to the concrete model loop by C04.key_eq_rfc only at the level of results.",
         "rule": "argonsched (purego, race): 12 (quick) / 300 (thorough) parameter tuples × 5 GOMAXPROCS settings with 4 yielding noise goroutines; key equal across settings and equal to the sequential model; argon: indexAlpha reference-set property on 3000 / 100000 tuples; non-trivial/distinct = distinct parameter tuples",
         "trusted": COMMON_TRUST + ["sync.WaitGroup / goroutine semantics", "Go memory model"],
         "assumptions": [],
